@@ -6,7 +6,12 @@ import (
 	"strings"
 
 	sdkmath "cosmossdk.io/math"
+	"cosmossdk.io/x/feegrant"
 	sdk "github.com/cosmos/cosmos-sdk/types"
+	authtypes "github.com/cosmos/cosmos-sdk/x/auth/types"
+	banktypes "github.com/cosmos/cosmos-sdk/x/bank/types"
+
+	palomatypes "github.com/palomachain/paloma/v2/x/paloma/types"
 
 	"verif/harness/chain"
 	"verif/harness/world"
@@ -31,12 +36,17 @@ type saleEv struct {
 
 func (e saleEv) price() *big.Int { return new(big.Int).Mul(e.Amount, million) }
 
-var saleStores = []string{"paloma", "bank", "feegrant", "acc"}
+// the raw stores a sale without effect must leave untouched: licences + configuration, balances,
+// fee allowances, accounts
+var saleStores = []string{palomatypes.StoreKey, banktypes.StoreKey, feegrant.StoreKey, authtypes.StoreKey}
 
 func (m *mon) dumpSaleStores() map[string]map[string]string {
 	out := map[string]map[string]string{}
 	ctx := m.c.Ctx()
 	for _, s := range saleStores {
+		if m.c.KVStore(ctx, s) == nil {
+			m.rec.Inconclusive("no such store: " + s)
+		}
 		out[s] = m.c.DumpStore(ctx, s)
 	}
 	return out
@@ -48,7 +58,7 @@ func (m *mon) storeChanges(a, b map[string]map[string]string) []string {
 	var out []string
 	for _, s := range saleStores {
 		for _, k := range chain.DiffStores(a[s], b[s]) {
-			if s == "acc" {
+			if s == authtypes.StoreKey {
 				skip := false
 				for _, v := range m.w.Vals {
 					if strings.HasSuffix(k, fmt.Sprintf("01%x", []byte(v.Addr))) {
@@ -192,13 +202,20 @@ func (m *mon) newSaleEvents() []*saleEv {
 		if cc, ok := m.L.cfg.Contracts[ch]; ok {
 			contract = cc
 		}
-		switch r.Intn(12) {
-		case 0:
+		switch x := r.Intn(100); {
+		case x < 8:
 			contract = m.contracts[r.Intn(len(m.contracts))] // possibly the other one
-		case 1:
+		case x < 14:
 			contract = "0x00000000000000000000000000000000000bad01"
-		case 2:
+		case x < 20:
 			contract = strings.ToLower(contract) // the same contract, spelled without checksum case
+		case x < 32:
+			// the contract that is authorised on ANOTHER chain
+			for _, other := range m.w.Chains {
+				if oc, ok := m.L.cfg.Contracts[other]; ok && other != ch && oc != contract {
+					contract = oc
+				}
+			}
 		}
 		m.ethH += uint64(1 + r.Intn(5))
 		evs = append(evs, &saleEv{Chain: ch, Nonce: last + 1 + uint64(i), EthH: m.ethH, Client: client, Form: form, Amount: amt, AmtKind: kind, Contract: contract})
